@@ -225,7 +225,7 @@ func describeContHistory(h storgen.ContHistory) any {
 }
 
 func TestC20(t *testing.T) {
-	rec := evid.Start(t, "C20", "model-steered random operation sequences (quick: ≤ 16 executions × ≤ 12 operations; thorough: ≤ 30 × 12, i.e. up to 360 operations, bulk operations count once) on a variable-sized array [E], a constant-sized array [E; 8] and a "+
+	rec := evid.Start(t, "C20", "model-steered random operation sequences (88% start with a transaction that builds a multi-slab array (250–660 elements) and dictionary (150–250 entries); 80% of the in-place executions start, right after the reload, with a READ-ONLY query through the borrowed reference — contains/firstIndex of the first/middle/last/an absent element, index, slice, length, containsKey, d[k] — before anything else has loaded the slabs; every history has ≥ 1 invalid-index operation; quick: ≤ 12 executions × ≤ 13 operations; thorough: ≤ 30 × 12, i.e. up to 360 operations, bulk operations count once) on a variable-sized array [E], a constant-sized array [E; 8] and a "+
 		"dictionary {K: E} kept in account storage; E ∈ {Int, String (2–5, 200 and 600 bytes), struct with nested array, [Int] (0–5 and 130 elements)}, K ∈ {Int, String}; operations: append, appendAll, insert, "+
 		"remove, removeFirst, removeLast, bulk removal, index read/write, slice, reverse, concat, filter, map (generated pure closures), contains, firstIndex, toConstantSized/toVariableSized; dictionary insert, "+
 		"remove, index read/write/nil-assignment, containsKey, bulk insert/remove, keys/values/forEachKey/for-in enumeration (all four must agree), forEachKey with early stop; valid and invalid indices; bulk sizes "+
@@ -249,7 +249,7 @@ func TestC20(t *testing.T) {
 	}
 
 	rapid.Check(t, func(rt *rapid.T) {
-		hist := storgen.GenContHistory(storgen.FromRapid(rt), storgen.ContGenConfig{MaxExecs: evid.N(16, 30), MaxOps: 12})
+		hist := storgen.GenContHistory(storgen.FromRapid(rt), storgen.ContGenConfig{MaxExecs: evid.N(12, 30), MaxOps: 12})
 		var facts contFacts
 		for _, eng := range host.Engines {
 			msg, f := runContHistory(hist, eng, false, nil)
@@ -294,6 +294,14 @@ func TestC20(t *testing.T) {
 		}
 		if facts.maxLen >= 200 {
 			rec.Class("history/len>=200")
+		}
+		for _, e := range hist.Execs {
+			if !e.Local && len(e.Ops) > 0 && facts.maxLen >= 200 {
+				switch k := e.Ops[0].Kind; k {
+				case "contains", "firstIndex", "containsKey", "get", "slice", "length":
+					rec.Class("first-op-after-reload/" + e.Ops[0].On + "." + k)
+				}
+			}
 		}
 		if nt && rec.WantSample(storgen.ElemName[hist.Elem]) {
 			rec.Sample(storgen.ElemName[hist.Elem], describeContHistory(hist))
